@@ -303,6 +303,11 @@ def main(argv=None):
     if replay:
         mod = importlib.import_module(f"mc.props.{prop_id}")
         rec = json.load(open(replay))
+        hs = rec["input"].get("PYTHONHASHSEED") if isinstance(rec.get("input"), dict) else None
+        if hs is not None and str(hs) != os.environ.get("PYTHONHASHSEED"):
+            # the case was found under another hash seed: replay it in an interpreter started with that seed
+            os.chdir(ROOT)
+            os.execve(sys.executable, [sys.executable, "-W", "ignore", "-m", "mc.runner"] + argv, dict(os.environ, PYTHONHASHSEED=str(hs)))
         viols = mod.replay(rec["input"], rec.get("clause"))
         if viols:
             for v in viols:
